@@ -58,6 +58,14 @@ package comments
 //@ func ParseDocs(c)
 //@   props C16 C19
 //@   propagates
+// C09 (F15): the loaded packages are handled in the order of their import paths, not in the order the patterns were
+// given (which converter's diagnostic is reported first must not depend on it)
+//@   at@C09 call sort.Slice#1 assert same(arg0, pkgs)
+//@   at@C09 call parseGenDecl#1 assert reached("sort.Slice#1")
+// C17/C13: a package that could not be loaded ends the run with its diagnostic -- none is skipped
+// (the first thing looked at for every package is its list of load errors)
+//@   at@C17,C13 call len#1 assert same(arg0, pkg.Errors)
+//@   loop@C17,C13 1 invariant idx > 0 ==> reached("len#1")
 // C19: every file of every loaded package is scanned, and every general declaration in it is looked at (a converter
 // is a converter wherever its declaration stands: no file or declaration is skipped)
 //@   loop@C19 1 invariant idx > 0 ==> reached("loop#2")
